@@ -88,6 +88,15 @@ def drive(ctx):
         for yy in (y, as_td(y)):
             for o in ("floordiv_dur", "mod_dur", "divmod_dur"):
                 ctx.emit("dur_op", {"o": o}, [x, yy])
+    # history: a division by a Duration WITH years / months (outside the statement, executed all the same), then the same
+    # division by the plain timedelta and by the Duration of the same native length
+    for (yy, mm, dd) in ((1, 0, 1), (0, 1, 0), (2, 0, 0), (0, 13, 5), (-1, 0, -1)):
+        length = 365 * yy + 30 * mm + dd
+        for x in (dur(d=732), dur(d=-1000, s=5), dur(d=61), dur(d=400)):
+            for o in ("floordiv_dur", "mod_dur", "divmod_dur"):
+                ctx.emit("dur_op", {"o": o}, [x, dur(y=yy, mo=mm, d=dd)])
+                ctx.emit("dur_op", {"o": o}, [x, td(length, 0, 0)])
+                ctx.emit("dur_op", {"o": o}, [x, dur(d=length)])
     # true division where the quotient is a small dyadic rational: x = y * k / 2^j
     for k in range(60 if q else 600):
         yus = rnd.choice((1, 3, 1000, 999, 1024, 500000)) * rnd.choice((1, -1))
@@ -111,7 +120,7 @@ def drive(ctx):
     from .common import FIXED_OFFSETS, HI, LO, NAIVE, UTCZ, real_zone_names
 
     names = real_zone_names(ctx)
-    AOPS = ("mul_int", "rmul_int", "floordiv_int", "truediv_int", "add_td", "radd_td", "sub_td", "as_duration")
+    AOPS = ("mul_int", "rmul_int", "floordiv_int", "truediv_int", "add_td", "radd_td", "sub_td", "as_duration", "rsub_td")
     for k in range(160 if q else 4000):
         s1 = rnd.randrange(LO + 86400 * 20000, HI - 86400 * 20000)
         s2 = s1 + rnd.choice((1, -1)) * rnd.choice((rnd.randrange(3), rnd.randrange(86400 * 3), rnd.randrange(86400 * 900),
@@ -130,6 +139,19 @@ def drive(ctx):
             pr = [mk_dt(fo, w1, 0), mk_dt(fo, w2, 0)]
         else:
             pr = [mk_dt({"n": rnd.choice(names), "fo": 0}, w1, 0), mk_dt({"n": rnd.choice(names), "fo": 0}, w2, 1)]
+        if k % 7 == 0:
+            # same zone, end-points on different days across a change of offset
+            from .common import zone_transitions
+
+            zn = rnd.choice(names)
+            trs = [t for t in zone_transitions(ctx, zn) if LO + 86400 * 20000 < t[0] < HI - 86400 * 20000]
+            if trs:
+                (sec, b_, a_) = rnd.choice(trs)
+                z = {"n": zn, "fo": 0}
+                pr = [mk_dt(z, i3_to_wall(sec_to_i3(sec - 86400 * rnd.randrange(1, 6) - 7000 + b_, 5)), 0),
+                      mk_dt(z, i3_to_wall(sec_to_i3(sec + 86400 * rnd.randrange(1, 6) + 9000 + a_, 0)), 1)]
+                if k % 2:
+                    pr.reverse()
         o = AOPS[(k // 5) % len(AOPS)]
         ctx.emit("iv_arith", {"o": o, "abs": bool(k % 3 == 0), "n": rnd.choice((2, 3, -2, 7, -1, 1000)) if "div" not in o else
                               rnd.choice((2, 3, -2, 7, 10)), "d": rnd.randrange(-3, 4), "s": rnd.randrange(86400),
